@@ -2,7 +2,11 @@
 //!
 //! Request lines
 //!   case <n> <vec|tree> num=<n> scaled=<s> mh=<max_hash> track=<0|1> otrack=<0|1> k=<ksize>
-//!        [ok=<ksize of the second sketch>] [mol=<dna|protein|dayhoff|hp>]
+//!        [ok=<ksize of the second sketch>] [onum=<num of the second sketch>] [mol=<dna|protein|dayhoff|hp>]
+//!   (`num` and `scaled` may both be non-zero: a sketch bounded by a size AND a ceiling — what
+//!   `ComputeParameters` with its default num_hashes produces; the second sketch shares the ceiling —
+//!   `check_compatible` compares it — but has its own `num` and its own abundance flag, neither of which
+//!   `check_compatible` looks at.)
 //!   mutators (answer `mins=<list>`, `err <Variant>` or — when a failed call may have changed the
 //!   sketch — `err <Variant> mins=<list>`):
 //!     add <h> <a> | set <h> <a> | rm <h> | rmmany <h,..> | clear | merge | enable | disable | inflate
@@ -179,6 +183,7 @@ fn step(st: &mut St, ws: &[&str]) -> String {
         let num: u32 = kv(ws, "num").parse().unwrap();
         let k: u32 = kv(ws, "k").parse().unwrap();
         let ko: u32 = kv_opt(ws, "ok").map(|v| v.parse().unwrap()).unwrap_or(k);
+        let onum: u32 = kv_opt(ws, "onum").map(|v| v.parse().unwrap()).unwrap_or(num);
         let track = kv(ws, "track") == "1";
         let otrack = kv(ws, "otrack") == "1";
         let hf = hash_fn(kv_opt(ws, "mol").unwrap_or("dna"));
@@ -189,7 +194,7 @@ fn step(st: &mut St, ws: &[&str]) -> String {
             return format!("err max_hash {}", main.max_hash());
         }
         st.main = Some(main);
-        st.other = Some(Sk::new(tree, scaled, ko, num, otrack, hf));
+        st.other = Some(Sk::new(tree, scaled, ko, onum, otrack, hf));
         return "ok".into();
     }
     match ws[0] {
@@ -712,6 +717,82 @@ impl Gen {
             _ => ("clear".into(), false),
         }
     }
+    /// "accumulate into a sketch of another size": the source is filled with MORE hashes than the
+    /// receiver may hold (or fewer), its digest is cached through one of the observers or left
+    /// uncached, the receiver is empty or not, then merge / add_from / the C API forms, and the
+    /// receiver is observed through every route (its digest must be the one of the truncated contents)
+    fn merge_prelude(&self, r: &mut Rng, o: &mut Out) {
+        let recv_other = r.chance(1, 3);
+        let (rp, sp) = if recv_other { ("o.", "") } else { ("", "o.") };
+        let c_api = !self.tree && r.chance(1, 4);
+        // distinct hashes, ascending or not
+        let n = r.range(1, 8);
+        let mut hs: Vec<u64> = (0..n).map(|_| if r.chance(3, 4) { *r.pick(&self.pool) } else { pick_hash(r) }).collect();
+        if r.chance(1, 2) {
+            hs.sort();
+        }
+        if r.chance(1, 3) {
+            let abs: Vec<u64> = hs.iter().map(|_| r.range(1, 4)).collect();
+            o.op(&format!("{}addmanya {} {}", sp, show_nats(hs.clone()), show_nats(abs)));
+        } else {
+            o.op(&format!("{}addmany {}", sp, show_nats(hs.clone())));
+        }
+        // receiver: empty (half of the time), or holding some hashes (of the source's or others)
+        match r.below(6) {
+            0..=2 => {}
+            3 => o.op(&format!("{}add {} 1", rp, *r.pick(&hs))),
+            4 => o.op(&format!("{}addmany {}", rp, show_nats(self.hashes(r, 3)))),
+            _ => {
+                // filled and emptied again
+                o.op(&format!("{}add {} 1", rp, self.hash(r)));
+                if r.chance(1, 2) {
+                    o.op(&format!("{}md5", rp));
+                }
+                o.op(&format!("{}clear", rp));
+            }
+        }
+        if r.chance(1, 4) {
+            o.op(&format!("{}md5", rp));
+        }
+        // the source's digest: cached through one of the routes, or not
+        match r.below(9) {
+            0..=1 => {}
+            2..=3 => o.op(&format!("{}md5", sp)),
+            4 => o.op(&format!("{}clone", sp)),
+            5 => o.op(&format!("{}serde", sp)),
+            6 => o.op(if r.chance(1, 2) { "eq" } else { "req" }),
+            7 => o.op(&format!("{}jmd5", sp)),
+            _ => o.op(&format!("{}{}", sp, if self.tree { "md5" } else { "cmd5" })),
+        }
+        let m = match r.below(8) {
+            0..=5 => {
+                if c_api {
+                    "cmerge"
+                } else {
+                    "merge"
+                }
+            }
+            _ => {
+                if c_api {
+                    "caddfrom"
+                } else {
+                    "addfrom"
+                }
+            }
+        };
+        o.op(&format!("{}{}", rp, m));
+        match r.below(8) {
+            0..=2 => o.op(&format!("{}md5", rp)),
+            3 => o.op(&format!("{}{}", rp, if self.tree { "md5" } else { "cmd5" })),
+            4 => o.op(&format!("{}jmd5", rp)),
+            5 => o.op(&format!("{}clone", rp)),
+            6 => o.op("eq"),
+            _ => o.op("req"),
+        }
+        if r.chance(1, 2) {
+            o.op(if r.chance(1, 2) { "eq" } else { "req" });
+        }
+    }
     fn observer(&self, r: &mut Rng, o: &mut Out, pfx: &str) {
         match r.below(14) {
             13 => o.op(&format!("{}jmd5", pfx)),
@@ -739,16 +820,30 @@ fn gen(a: &Args) {
     } else if a.tier == "thorough" {
         150_000
     } else {
-        6_000
+        10_000
     };
     let scaleds: [u64; 6] = [1, 2, 3, 4, 5, 8];
     for _ in 0..ncases {
         let mut tree = r.chance(1, 2);
-        let is_scaled = r.chance(1, 2);
-        let (scaled, num) = if is_scaled {
-            (*r.pick(&scaleds), 0u64)
+        // bounded by a ceiling, by a size, or by both (a fifth of the cases)
+        let (scaled, num) = match r.below(10) {
+            0..=3 => (*r.pick(&scaleds), 0u64),
+            4..=7 => (0, r.range(1, 6)),
+            _ => (*r.pick(&scaleds), r.range(1, 6)),
+        };
+        // the second sketch has its own size bound half of the time (merge / add_from / remove_from /
+        // inflate / == between sketches of different `num` are all accepted by the code)
+        let onum = if num != 0 {
+            match r.below(20) {
+                0..=9 => num,
+                10 => 0,
+                11..=14 => r.range(1, num),
+                _ => r.range(num, 9),
+            }
+        } else if r.chance(1, 5) {
+            r.range(1, 6)
         } else {
-            (0, r.range(1, 6))
+            0
         };
         let mh = max_hash_for_scaled(scaled);
         let track = r.chance(1, 2);
@@ -781,6 +876,9 @@ fn gen(a: &Args) {
         if ko != k {
             line += &format!(" ok={}", ko);
         }
+        if onum != num {
+            line += &format!(" onum={}", onum);
+        }
         if mol != "dna" {
             line += &format!(" mol={}", mol);
         }
@@ -788,6 +886,9 @@ fn gen(a: &Args) {
         let mut g = Gen { tree, protein: mol != "dna", k, ko, pool: [0u64; 8] };
         for p in g.pool.iter_mut() {
             *p = pick_hash(&mut r);
+        }
+        if !kdiff && r.chance(1, 4) {
+            g.merge_prelude(&mut r, &mut o);
         }
         let nops = r.range(1, if kdiff { 12 } else { 26 });
         for _ in 0..nops {
